@@ -175,6 +175,7 @@ SUBS = [
         strategy=read_case,
         examples={"quick": 450, "thorough": 2500},
         shards={"quick": 8, "thorough": 16},
+        fuzz={"thorough": 150},
     ),
 ]
 
